@@ -342,7 +342,7 @@ def run(ctx):
                 ("simC", (2, "KindsBCB", [1, 3, 5, 6, 7, 8], 20, 3, True, ["HLog", "EEh"], True), 800)]
         arena = ("arena", (1, "KindsAC", [1, 6], 8, 2, False, [], False))
     caps = {"core": 700, "core7": 1200, "sec": 900, "open": 600, "links": 600, "comp": 400, "two": 500} if q else \
-        {"core": 8000, "core7": 6000, "sec": 5000, "open": 4000, "core2": 5000, "links": 8000, "comp": 4000, "two": 3500, "cca": 4000}
+        {"core": 6000, "core7": 5000, "sec": 4000, "open": 3500, "core2": 4000, "links": 6000, "comp": 3500, "two": 3000, "cca": 3000}
     for name, args in plan:
         hs += export_histories(ctx, name, args, cap=caps.get(name))
     for name, args, n in sims:
@@ -375,28 +375,50 @@ def run(ctx):
             scripts_plain.append({"cfg": dict(b, kinds=kinds), "ops": h})
     ctx.log(f"{len(hs)} model histories -> {len(scripts_asan)} ASan executions + {len(scripts_plain)} plain-build executions (config twins)")
 
-    traces = []
-    sa, ta = ctx.path("scripts_asan.ndjson"), ctx.path("trace_scripts_asan.ndjson")
-    vlib.write_ndjson(sa, scripts_asan)
-    vlib.record_trace(ctx, basan, "lifecycle", ["script", sa, ta], ta, timeout=2400, env={"VERIF_SEED": ctx.seed})
-    traces.append(("scripts_asan", [ta]))
-    sp, tp = ctx.path("scripts_plain.ndjson"), ctx.path("trace_scripts_plain.ndjson")
-    vlib.write_ndjson(sp, scripts_plain)
-    vlib.record_trace(ctx, bplain, "lifecycle", ["script", sp, tp], tp, timeout=2400, env={"VERIF_SEED": ctx.seed})
-    traces.append(("scripts_plain", [tp]))
-
-    # ---- 3. long random histories (10^3 actions), both builds ----
+    # ---- 3. executions: script chunks and long random histories (10^3 actions) of both builds run as parallel processes ----
     renv = {"VERIF_SEED": ctx.seed}
     if KJA in known:
         renv["LC_AVOID_JA"] = "1"
     if KBASE in known:
         renv["LC_FIXED_BASE"] = "1"
         ctx.log(f"known finding {KBASE}: the JIT-style configuration (init without base address) is only exercised by the finding's own history")
-    nexec, nact = (3, 1000) if q else (30, 1000)
+    nexec, nact = (3, 1000) if q else (24, 1000)
+    jobs, traces = [], []
+
+    def chunks(tag, bdir, scripts, k):
+        n = (len(scripts) + k - 1) // k
+        n += n % 2                                   # twins (adjacent executions) stay in one chunk
+        paths = []
+        for c in range(k):
+            part = scripts[c * n:(c + 1) * n]
+            if not part:
+                continue
+            sp_, tp_ = ctx.path(f"{tag}_{c}.ndjson"), ctx.path(f"trace_{tag}_{c}.ndjson")
+            vlib.write_ndjson(sp_, part)
+            jobs.append((bdir, ["script", sp_, tp_], tp_, {"VERIF_SEED": ctx.seed + c}))
+            paths.append(tp_)
+        traces.append((tag, paths))
+    chunks("scripts_asan", basan, scripts_asan, 3 if q else 6)
+    chunks("scripts_plain", bplain, scripts_plain, 2)
     tr1, tr2 = ctx.path("trace_random_asan.ndjson"), ctx.path("trace_random_plain.ndjson")
-    vlib.record_trace(ctx, basan, "lifecycle", ["random", tr1, nexec, nact], tr1, timeout=2400, env=renv)
-    vlib.record_trace(ctx, bplain, "lifecycle", ["random", tr2, nexec * 2, nact], tr2, timeout=2400, env=dict(renv, VERIF_SEED=ctx.seed + 7))
+    jobs.append((basan, ["random", tr1, nexec, nact], tr1, renv))
+    jobs.append((bplain, ["random", tr2, nexec * 2, nact], tr2, dict(renv, VERIF_SEED=ctx.seed + 7)))
     traces.append(("random", [tr1, tr2]))
+    errs = []
+
+    def runjob(job):
+        try:
+            vlib.record_trace(ctx, job[0], "lifecycle", job[1], job[2], timeout=2400, env=job[3])
+        except Exception as ex:  # noqa
+            errs.append(ex)
+    th = [threading.Thread(target=runjob, args=(jb,)) for jb in jobs]
+    for t in th:
+        t.start()
+    for t in th:
+        t.join()
+    if errs:
+        raise Broken(repr(errs[0]))
+    ctx.log(f"{len(jobs)} harness processes finished")
 
     # ---- 4. trace validation ----
     tcfg = trace_cfg(ctx, known)
